@@ -833,6 +833,143 @@ run_ws(void *arg)
 	vh_fini();
 }
 
+// ---- WF: websocket message limit across fragments --------------------------------------------------
+// a raw websocket client completes the upgrade and sends one binary message split into 1..3 masked
+// fragments; the message is delivered (exactly) iff its total size is within RECVMAXSZ, otherwise
+// nothing is delivered and that connection is closed; a conforming client still works afterwards.
+static size_t
+ws_cframe(uint8_t *out, int op, int fin, const uint8_t *pl, size_t n)
+{
+	static const uint8_t key[4] = { 0x37, 0xfa, 0x21, 0x3d };
+	size_t               o      = 0;
+	out[o++]                    = (uint8_t) ((fin ? 0x80 : 0) | op);
+	out[o++]                    = (uint8_t) (0x80 | n); // n < 126 here
+	memcpy(out + o, key, 4);
+	o += 4;
+	for (size_t i = 0; i < n; i++)
+		out[o++] = pl[i] ^ key[i & 3];
+	return o;
+}
+
+static void
+run_wsmax(void *arg)
+{
+	(void) arg;
+	enum { R = 100 };
+	static const int LENS[] = { 0, 1, 50, 99, 100, 101 };
+	vs_tcp_grace_us = 1500;
+	vh_init(0);
+	nng_socket   s, c;
+	nng_listener l;
+	int          port = 0;
+	VH_OK(nng_pair0_open(&s));
+	VH_OK(nng_socket_set_size(s, NNG_OPT_RECVMAXSZ, R));
+	VH_OK(nng_socket_set_ms(s, NNG_OPT_RECVTIMEO, 300));
+	VH_OK(nng_listen(s, "ws://127.0.0.1:0/c11", &l, 0));
+	VH_OK(nng_listener_get_int(l, NNG_OPT_BOUND_PORT, &port));
+	static const char req[] = "GET /c11 HTTP/1.1\r\nHost: 127.0.0.1\r\n"
+	                          "Upgrade: websocket\r\nConnection: Upgrade\r\n"
+	                          "Sec-WebSocket-Key: dGhlIHNhbXBsZSBub25jZQ==\r\n"
+	                          "Sec-WebSocket-Version: 13\r\n"
+	                          "Sec-WebSocket-Protocol: pair.sp.nanomsg.org\r\n\r\n";
+	seat st;
+	st.tran = TR_TCP;
+	st.port = port;
+	st.s    = s;
+	int first = vs_choose(VK_ENV, 6);
+	// shapes: nf fragments (1..3), first of LENS[first], the others over LENS
+	for (int shape = 0; shape < 1 + 6 + 36; shape++) {
+		int nf, ln[3];
+		ln[0] = LENS[first];
+		if (shape == 0)
+			nf = 1;
+		else if (shape < 7) {
+			nf    = 2;
+			ln[1] = LENS[shape - 1];
+		} else {
+			nf    = 3;
+			ln[1] = LENS[(shape - 7) / 6];
+			ln[2] = LENS[(shape - 7) % 6];
+		}
+		int total = 0;
+		for (int i = 0; i < nf; i++)
+			total += ln[i];
+		uint8_t pay[320], wire[400];
+		for (int i = 0; i < total; i++)
+			pay[i] = (uint8_t) (0x41 + (i * 7 + shape) % 53);
+		size_t wl = 0;
+		int    at = 0;
+		for (int i = 0; i < nf; i++) {
+			wl += ws_cframe(wire + wl, i == 0 ? 2 : 0, i == nf - 1,
+			    pay + at, (size_t) ln[i]);
+			at += ln[i];
+		}
+		int fd = seat_connect(&st);
+		vp_write_all(fd, req, sizeof(req) - 1);
+		vs_settle();
+		vs_sleep(5);
+		char    resp[600];
+		ssize_t rn = vp_read_avail(fd, resp, sizeof(resp) - 1);
+		if (rn < 12 || memcmp(resp, "HTTP/1.1 101", 12) != 0)
+			vs_fail("harness:ws-upgrade", "upgrade refused (%zd bytes)", rn);
+		vp_write_all(fd, wire, wl);
+		vs_settle();
+		vs_sleep(5);
+		vs_case();
+		vs_nontrivial();
+		nng_msg *m  = NULL;
+		int      rv = nng_recvmsg(s, &m, 0);
+		char     what[80];
+		snprintf(what, sizeof(what), "fragments %d/%d/%d total %d limit %d", ln[0],
+		    nf > 1 ? ln[1] : -1, nf > 2 ? ln[2] : -1, total, R);
+		if (total <= R) {
+			if (rv != 0)
+				vs_fail("C11:ws:within-limit-dropped", "[%s] not delivered: %s",
+				    what, nng_strerror(rv));
+			if (nng_msg_len(m) != (size_t) total ||
+			    memcmp(nng_msg_body(m), pay, (size_t) total) != 0)
+				vs_fail("C11:ws:corrupted", "[%s] delivered %zu bytes %s", what,
+				    nng_msg_len(m),
+				    vh_hex(nng_msg_body(m),
+				        nng_msg_len(m) > 12 ? 12 : nng_msg_len(m)));
+			nng_msg_free(m);
+		} else {
+			if (rv == 0)
+				vs_fail("C11:recvmax:delivered",
+				    "[%s] a %zu byte message was delivered over ws", what,
+				    nng_msg_len(m));
+			if (!wait_eof(fd, 1000))
+				vs_fail("C11:recvmax:not-closed",
+				    "[%s] the offending ws connection was not closed", what);
+		}
+		close(fd);
+		vs_settle();
+	}
+	char url[64];
+	snprintf(url, sizeof(url), "ws://127.0.0.1:%d/c11", port);
+	VH_OK(nng_pair0_open(&c));
+	VH_OK(nng_socket_set_ms(c, NNG_OPT_SENDTIMEO, 2000));
+	VH_OK(nng_socket_set_ms(s, NNG_OPT_RECVTIMEO, 2000));
+	int rv = nng_dial(c, url, NULL, 0);
+	if (rv != 0)
+		vs_fail("C11:control:connect", "ws dial after oversize messages: %s",
+		    nng_strerror(rv));
+	nng_msg *m;
+	VH_OK(nng_msg_alloc(&m, 0));
+	VH_OK(nng_msg_append(m, "control", 7));
+	if (nng_sendmsg(c, m, 0) != 0)
+		vs_fail("C11:control:delivery", "ws control send failed");
+	rv = nng_recvmsg(s, &m, 0);
+	if (rv != 0 || nng_msg_len(m) != 7)
+		vs_fail("C11:control:delivery", "ws control message not delivered: %s",
+		    nng_strerror(rv));
+	nng_msg_free(m);
+	vs_outcome("wsmax ok");
+	nng_socket_close(c);
+	nng_socket_close(s);
+	vh_fini();
+}
+
 static void
 explore(const char *name, void (*fn)(void *), void *arg)
 {
@@ -907,6 +1044,7 @@ main(int argc, char **argv)
 	explore("udp-datagrams", run_udp, NULL);
 	explore("ws-upgrade-truncated", run_ws, (void *) 0);
 	explore("ws-upgrade-mangled", run_ws, (void *) 1);
+	explore("ws-recvmax-fragments", run_wsmax, NULL);
 	vx_note("space",
 	    "stream transports socket://, ipc, tcp x {pair1-poly, rep}: truncation "
 	    "at every offset of handshake+2 frames; every value of every handshake "
